@@ -418,10 +418,27 @@ func coversBool(p *an.Program, e an.CodecEvent, f *types.Var) bool {
 		return false
 	}
 	fi := p.Info(e.Instr.Parent())
-	for _, fct := range fi.FactsAt(e.Instr) {
-		k := fct.T.Key()
-		if strings.Contains(k, "."+f.Name()) || strings.Contains(k, "fld:"+f.Name()+"(") {
-			return true
+	mentions := func(fs []an.Fact) bool {
+		for _, fct := range fs {
+			k := fct.T.Key()
+			if strings.Contains(k, "."+f.Name()) || strings.Contains(k, "fld:"+f.Name()+"(") {
+				return true
+			}
+		}
+		return false
+	}
+	if mentions(fi.FactsAt(e.Instr).Sorted()) {
+		return true
+	}
+	// the byte was chosen beforehand: a phi of constants, each arriving over an edge decided by the field
+	if st, ok := e.Instr.(*ssa.Store); ok {
+		if ph, ok := st.Val.(*ssa.Phi); ok {
+			for i := range ph.Edges {
+				pred := ph.Block().Preds[i]
+				if mentions(fi.EdgeFacts(pred, ph.Block())) || mentions(fi.FactsAtBlock(pred).Sorted()) {
+					return true
+				}
+			}
 		}
 	}
 	return false
